@@ -174,8 +174,14 @@ class Interp:
         pos = list(args)
         if self_val is not None:
             pos = [self_val] + pos
+        extra_pos = ()
         if len(pos) > len(params):
-            raise Unsupported(f"too many positional args for {qualname}")
+            if fdef.args.vararg is None:
+                raise Unsupported(f"too many positional args for {qualname}")
+            extra_pos = tuple(pos[len(params):])
+            pos = pos[:len(params)]
+        if fdef.args.vararg is not None:
+            env[fdef.args.vararg.arg] = extra_pos
         for i, p in enumerate(params):
             if i < len(pos):
                 env[p] = pos[i]
@@ -187,6 +193,17 @@ class Interp:
                     raise Unsupported(f"missing argument {p} for {qualname}")
                 st.env = {}
                 env[p] = self.eval(defaults[di], st, module)
+        for a_, d_ in zip(fdef.args.kwonlyargs, fdef.args.kw_defaults):
+            if a_.arg in kwargs:
+                env[a_.arg] = kwargs.pop(a_.arg)
+            elif d_ is not None:
+                st.env = {}
+                env[a_.arg] = self.eval(d_, st, module)
+            else:
+                raise Unsupported(f"missing keyword-only argument {a_.arg} for {qualname}")
+        if fdef.args.kwarg is not None:
+            env[fdef.args.kwarg.arg] = st.new_dict(dict(kwargs))
+            kwargs = {}
         if kwargs:
             raise Unsupported(f"unexpected kwargs {list(kwargs)} for {qualname}")
         st.env = env
@@ -1225,6 +1242,22 @@ class Interp:
                 return h(self, st, [recv] + list(args), kwargs, node)
             raise Unsupported(f"method {cls}.{name} on abstract object (line {getattr(node, 'lineno', '?')})")
         kind = recv.kind if isinstance(recv, Ref) else type(recv).__name__
+        if isinstance(recv, Opaque) and recv.tag == "super":
+            tree = self.mods[recv.info["module"]][0]
+            classes = {n.name: n for n in tree.body if isinstance(n, ast.ClassDef)}
+            bases = [b.id for b in classes[recv.info["cls"]].bases if isinstance(b, ast.Name)]
+            if not bases or bases[0] not in classes:
+                if name == "__init__":
+                    return None        # object.__init__
+                raise Unsupported(f"super().{name} outside the module")
+            dcls, fdef = self.class_of_method(recv.info["module"], bases[0], name)
+            if fdef is None:
+                if name == "__init__":
+                    return None
+                raise Unsupported(f"super().{name} not found")
+            self.inlined.add((recv.info["module"], f"{dcls}.{name}"))
+            return _Outcomes(self.call_function(recv.info["module"], f"{dcls}.{name}", st, args, kwargs,
+                                                self_val=recv.info["obj"], fdef=fdef))
         if isinstance(recv, Opaque):
             kind = "opaque:" + recv.tag
         if (is_sym(recv) and not isinstance(recv, Ref)) or isinstance(recv, (int, float)) and not isinstance(recv, bool):
